@@ -51,6 +51,15 @@ func dumpVal(sb *strings.Builder, v interface{}, oids oidMap) error {
 		for _, e := range t {
 			sb.WriteString(" " + X(e))
 		}
+	case []interface{}:
+		fmt.Fprintf(sb, " A %d", len(t))
+		for _, e := range t {
+			es, ok := e.(string)
+			if !ok {
+				return fmt.Errorf("unsupported list element %T", e)
+			}
+			sb.WriteString(" " + X(es))
+		}
 	case map[string]interface{}:
 		fs := make([]string, 0, len(t))
 		for f := range t {
